@@ -1,3 +1,93 @@
-From AG Require Import Str.
-Example placeholder : 1 = 1. Proof. reflexivity. Qed.
-Print Assumptions placeholder.
+(** C10 — limit keeps exactly the first or the last N rows.
+
+    Statements only; every proof is [exact <lemma>] into the proof files. *)
+From Coq Require Import List ZArith Lia.
+From AG Require Import Str F64 Value Json Expr Ops Pipeline Stream_proofs Limit_proofs.
+From AG Require Generated.
+Import ListNotations.
+Open Scope Z_scope.
+
+(** [limit N], N > 0: exactly the first N rows that reach it, in order. *)
+Theorem C10_head : forall (n : Z) (rows : list record),
+  0 < n -> stage_out (build_op (SLimit n)) rows = firstn (Z.to_nat n) rows.
+Proof. exact limit_head. Qed.
+Print Assumptions C10_head.
+
+(** [limit -N]: exactly the last N rows, in their original order. *)
+Theorem C10_tail : forall (n : Z) (rows : list record),
+  n < 0 -> stage_out (build_op (SLimit n)) rows = skipn (length rows - Z.to_nat (- n)) rows.
+Proof. exact limit_tail. Qed.
+Print Assumptions C10_tail.
+
+(** all rows when fewer than |N| arrive *)
+Theorem C10_short_input : forall (n : Z) (rows : list record),
+  n <> 0 -> (length rows <= Z.to_nat (Z.abs n))%nat ->
+  stage_out (build_op (SLimit n)) rows = rows.
+Proof. exact limit_short. Qed.
+Print Assumptions C10_short_input.
+
+(** the limit never drops a row with an error and never panics *)
+Theorem C10_clean : forall (n : Z) (rows : list record),
+  n <> 0 ->
+  let '(_, _, nerr, b) := op_run (build_op (SLimit n)) rows in nerr = O /\ b = no_bad.
+Proof. exact limit_clean. Qed.
+Print Assumptions C10_clean.
+
+(** the streaming execution (one row at a time through every operator, then
+    the drain loop) of ANY list of pre-aggregate operators equals applying
+    each operator to the complete output of the one before it; hence a limit
+    at any position sees exactly the rows the earlier stages let through, and
+    chained limits compose. *)
+Theorem C10_position : forall (ops : list opstate) (rows : list record),
+  rev (p_sent (run_preagg ops rows)) = staged ops rows.
+Proof. exact stream_is_staged. Qed.
+Print Assumptions C10_position.
+
+Theorem C10_chain : forall (a b : Z) (rows : list record),
+  rev (p_sent (run_preagg [build_op (SLimit a); build_op (SLimit b)] rows)) =
+  stage_out (build_op (SLimit b)) (stage_out (build_op (SLimit a)) rows).
+Proof. intros. rewrite stream_is_staged. reflexivity. Qed.
+Print Assumptions C10_chain.
+
+(** after an aggregation or sort the limit is applied to the (ordered) table,
+    afresh for every frame: the adapter builds a new operator instance *)
+Theorem C10_after_table : forall (n : Z) (t : table),
+  n <> 0 ->
+  exists cols,
+    adapter_process (SLimit n) t =
+    Ok (mkT cols (map rdata (stage_out (build_op (SLimit n)) (map (fun d => mkRec d []) (t_rows t))))).
+Proof. exact limit_after_table. Qed.
+Print Assumptions C10_after_table.
+
+(** a bare [limit] means [limit 10] (the constant is re-read from typecheck.rs) *)
+Theorem C10_default : typecheck_limit None = Some 10.
+Proof. exact limit_default. Qed.
+Print Assumptions C10_default.
+
+(** zero, fractional and non-finite counts are rejected at compile time;
+    an accepted count is a non-zero integer *)
+Theorem C10_static : forall (f : f64) (n : Z),
+  typecheck_limit (Some f) = Some n ->
+  n <> 0 /\ f_is_integral f = true /\ stage_ok (SLimit n) = true.
+Proof. exact limit_static. Qed.
+Print Assumptions C10_static.
+
+Theorem C10_static_zero : forall f : f64, ftrunc_Z f = 0 -> typecheck_limit (Some f) = None.
+Proof. exact limit_static_zero. Qed.
+Print Assumptions C10_static_zero.
+
+Theorem C10_static_fraction : forall f : f64, f_is_integral f = false -> typecheck_limit (Some f) = None.
+Proof. exact limit_static_fraction. Qed.
+Print Assumptions C10_static_fraction.
+
+(** the hypotheses are satisfiable and the statements are not vacuous *)
+Example C10_example_tail :
+  map rraw (stage_out (build_op (SLimit (-2)))
+                      [mkRec [] [97%N]; mkRec [] [98%N]; mkRec [] [99%N]]) = [[98%N]; [99%N]].
+Proof. vm_compute. reflexivity. Qed.
+
+Example C10_example_static :
+  typecheck_limit (Some (f_of_dec false 25 (-1))) = None /\
+  typecheck_limit (Some (f_of_Z 3)) = Some 3 /\
+  typecheck_limit (Some (f_of_Z 0)) = None.
+Proof. vm_compute. repeat split. Qed.
